@@ -1,1 +1,39 @@
-fn main() { vcore::hello(); }
+use vcore::checks::{self, Ctx};
+use vcore::ev::{self, Tier};
+
+fn main() {
+    let args: Vec<String> = std::env::args().collect();
+    if args.len() < 3 {
+        eprintln!("usage: vcheck <ID> <quick|thorough> | vcheck <ID> --replay <file>");
+        std::process::exit(2);
+    }
+    let id = args[1].clone();
+    if id == "dump" {
+        let text = std::fs::read_to_string(&args[2]).unwrap();
+        let g = vcore::lw::import(&text).expect("import failed");
+        let a = vcore::alab::analyse(&g).unwrap();
+        println!("{}", a.printed.text);
+        for d in &a.run.diags {
+            println!("diag {:?} {} {:?}", d.code, d.message, d.primary());
+        }
+        for (id, n) in a.flat.nodes.iter().enumerate() {
+            let span = a.printed.spans[id];
+            let mut f = a.names(&g, &a.sets.first[id]);
+            if a.sets.nullable[id] { f.insert("eps".into()); }
+            println!("#{id} {:?} `{}`\n   ref first={:?} follow={:?}\n   lw  {:?}", n.kind, vcore::alab::node_text(&a, id), f, a.names(&g, &a.sets.follow[id]), a.run.sets.get(&span));
+        }
+        return;
+    }
+    let (tier, replay) = if args[2] == "--replay" {
+        (Tier::Quick, Some(std::path::PathBuf::from(&args[3])))
+    } else if args[2] == "thorough" {
+        (Tier::Thorough, None)
+    } else {
+        (Tier::Quick, None)
+    };
+    let threads = std::env::var("VERIF_THREADS").ok().and_then(|s| s.parse().ok()).unwrap_or(16);
+    let ctx = Ctx { tier, seed: ev::seed_from_env(), replay, threads };
+    vcore::lw::quiet_panics();
+    let code = checks::run(&id, &ctx);
+    std::process::exit(code);
+}
